@@ -57,6 +57,7 @@ class FnRecord:
         self.rewrites = {}; self.cut = 0
         self.clauses = []   # (kind, text) of spliced ensures/requires/invariants
         self.ghost_pieces = []
+        self.lost_hints = []   # ghost text that could not be placed (anchor / ordinal lost after a change)
         self.ghost_ranges = []  # (first_line, last_line, kind, text)
 
 def _find_subseq(toks, lo, hi, pat):
@@ -73,8 +74,9 @@ def _find_subseq(toks, lo, hi, pat):
     return res
 
 class Emitter:
-    def __init__(self, repo_root, verif_root):
+    def __init__(self, repo_root, verif_root, demote=None):
         self.repo, self.verif = repo_root, verif_root
+        self.demote = set(demote or [])   # qnames emitted as external_body (no longer within Verus' reach)
         self.files = {}
         self.records = []
         self.struct_records = []
@@ -293,6 +295,14 @@ class Emitter:
         rec.src_line = F.src.count("\n", 0, toks[it.kw].start) + 1
         rec.props, rec.safety = opts["props"], opts["safety"]
         rec.mode = opts["mode"] or ("assumed" if any("external_body" in a for a in opts["attr"]) else "proved")
+        rec.demoted = False
+        if rec.qname in self.demote and rec.mode == "proved":
+            # keep the contract (callers are still checked against it) but do not verify the body; loop
+            # invariants / proof hints are dropped because they may not even type-check any more
+            opts["attr"] = list(opts["attr"]) + ["#[verifier::external_body]"]
+            opts["loops"] = {}; opts["anchors"] = []; opts["closures"] = {}
+            rec.mode = "demoted"; rec.demoted = True
+            opts["drop_body"] = True
         if it.body_open is None:
             raise EmitError("fn %s has no body" % rec.qname)
         in_trait_impl = opts["nopub"]
@@ -360,7 +370,7 @@ class Emitter:
             k += 1
         for n, L in opts["loops"].items():
             if n < 1 or n > len(loop_idx):
-                raise EmitError("lost anchor: loop %d of %s (found %d loops)" % (n, rec.qname, len(loop_idx)))
+                rec.lost_hints.append("loop %d invariant (found %d loops)" % (n, len(loop_idx))); continue
             k = loop_idx[n - 1]
             # body '{' : first '{' at paren/bracket depth 0 after keyword
             b = k + 1
@@ -394,7 +404,7 @@ class Emitter:
                 k += 1
             for n, lines in opts["closures"].items():
                 if n < 1 or n > len(cl):
-                    raise EmitError("lost anchor: closure %d of %s (found %d)" % (n, rec.qname, len(cl)))
+                    rec.lost_hints.append("closure %d header (found %d closures)" % (n, len(cl))); continue
                 k, q = cl[n - 1]
                 b = q + 1
                 txt = "\n".join(lines)
@@ -418,10 +428,10 @@ class Emitter:
             hits = _find_subseq(toks, body_lo, end, pat)
             if a["nth"] is not None:
                 if len(hits) < a["nth"]:
-                    raise EmitError("lost anchor: %r[%d] in %s (%d matches)" % (a["anchor"], a["nth"], rec.qname, len(hits)))
+                    rec.lost_hints.append("proof hint at %r[%d] (%d matches)" % (a["anchor"], a["nth"], len(hits))); continue
                 h = hits[a["nth"] - 1]
             elif len(hits) != 1:
-                raise EmitError("lost anchor: %r in %s (%d matches)" % (a["anchor"], rec.qname, len(hits)))
+                rec.lost_hints.append("proof hint at %r (%d matches)" % (a["anchor"], len(hits))); continue
             else:
                 h = hits[0]
             if a["where"] == "before":
@@ -480,6 +490,11 @@ class Emitter:
                 k = c + 1; continue
             k += 1
 
+        if opts.get("drop_body"):
+            # the changed body does not even compile in the unit (new helper, unsupported syntax): keep
+            # signature + contract only.  Verus never looks into an external_body.
+            edits = [e for e in edits if e[1] <= toks[bo].start or e[3] in ("sig",)]
+            edits.append((toks[bo].start, toks[end].end, "{ unimplemented!() }", "dropbody"))
         # ---- apply edits
         edits.sort(key=lambda e: (e[0], e[1]))
         for a, b in zip(edits, edits[1:]):
@@ -514,6 +529,8 @@ def check_faithful(emitter, out_text):
     problems = []
     lines = out_text.split("\n")
     for rec in emitter.records:
+        if getattr(rec, "demoted", False):
+            continue
         seg = "\n".join(lines[rec.out_first - 1:rec.out_last])
         # drop ghost
         seg = re.sub(re.escape(G_OPEN) + r".*?" + re.escape(G_CLOSE), " ", seg, flags=re.S)
